@@ -6,5 +6,6 @@ Cap = 1
 AllowRetire = TRUE
 FixRetire = TRUE
 FixReset = TRUE
+FixRetireSet = TRUE
 INVARIANTS AtMostOnce JoinAfterDone QueueOK
 CONSTANT defaultInitValue = defaultInitValue
